@@ -103,6 +103,42 @@ def frac_ambiguous(vals_sorted_clipped, p):
     return False
 
 
+# ---------------------------------------------------------------- units
+def unit_monitor(rep):
+    """The shared eigen-solver has no absolute scale: a covariance matrix expressed in other units (times a power of two, which
+    scales every intermediate exactly) gives the same number of components, the same vectors and eigenvalues times that factor —
+    for spectra far below 1 (curves in small units) and far above."""
+    from FDApy.misc.utils import _compute_eigen
+    rng = np.random.default_rng([C.seed(), 1, 9])
+    for i in range(6):
+        n = 3 + i % 4
+        q, _ = np.linalg.qr(rng.normal(size=(n, n)))
+        lam = np.sort(rng.uniform(0.1, 1.0, size=n))[::-1] * (1 + np.arange(n)[::-1])
+        m = (q * lam) @ q.T
+        m = (m + m.T) / 2
+        for sel in (None, 2, 0.8):
+            try:
+                ev0, vec0 = _compute_eigen(m.copy(), sel)
+            except Exception:  # noqa: BLE001
+                continue
+            ev0, vec0 = np.asarray(ev0, float), np.asarray(vec0, float)
+            for e in (-44, -20, 30):
+                c = 2.0 ** e
+                rep.case(("units", i, repr(sel), e), kind="eigen-solver/units")
+                try:
+                    ev, vec = _compute_eigen(m.copy() * c, sel)
+                    ev, vec = np.asarray(ev, float), np.asarray(vec, float)
+                except Exception as ex:  # noqa: BLE001
+                    rep.violation(f"_compute_eigen raised {type(ex).__name__} on a matrix in other units (x 2^{e})",
+                                  {"level": "helper", "matrix": C.hexf(m * c), "sel": sel})
+                    continue
+                if ev.shape != ev0.shape or np.max(np.abs(ev - c * ev0)) > 1e-9 * c * float(np.max(np.abs(ev0))) \
+                        or vec.shape != vec0.shape or np.max(np.abs(np.abs(vec) - np.abs(vec0))) > 1e-7:
+                    rep.violation(f"_compute_eigen(n_components={sel}) on the same matrix times 2^{e}: eigenvalues {ev.tolist()} are not "
+                                  f"2^{e} times {ev0.tolist()} (or other vectors): the components kept depend on the unit of the data",
+                                  {"level": "helper", "matrix": C.hexf(m * c), "sel": sel, "factor_exponent": e})
+
+
 # ---------------------------------------------------------------- the translated selection rule
 def select_level(rep, rng, quick):
     """_select_number_eigencomponents against its own TRANSLATION (Gen/Select.v, regenerated on this run) executed in Q."""
@@ -592,6 +628,7 @@ def run(rep, props, replay=None):
         return replay_case(rep, replay)
     helper_level(rep, rng, quick)
     select_level(rep, rng, quick)
+    unit_monitor(rep)
     api_level(rep, rng, quick)
 
 
